@@ -1,4 +1,4 @@
-import H2T.Render
+import H2T.Lemmas.Balance
 
 /-! # C09 — rich annotations mirror element nesting exactly
 
@@ -7,11 +7,32 @@ pops it afterwards, and every piece of text is tagged with the stack as it stand
 Status: **partial** — proved: adding text, starting blocks, flushing and new lines never change the stack; an
 `open … close` bracket restores it exactly (so nothing leaks past the end of an element); text is tagged with
 exactly the current stack (plus the preformat annotation inside `pre`); a sub-renderer starts with a copy of its
-parent's stack.  The `Table` arm now unwinds its style (fix 3cb7874), so `compile` is bracketed for every node
-kind; the document-level statement (tag vector = annotating ancestors) is decided by correspondence and the
-per-character oracle. -/
+parent's stack.  The `Table` arm now unwinds its style (fix 3cb7874), and **`compile` is proved bracketed for every
+render node** (`no_annotation_leaks`, from `Balance.compile_frame`): whatever happens inside an element — wrapping,
+nested blocks, sub-renderers, tables with their rows and cells, errors aside — its program hands the annotation stack,
+the `pre` depth, the white-space stack and the strikeout depth back exactly as it found them.  The document-level
+statement (tag vector = annotating ancestors) is decided by correspondence and the per-character oracle. -/
 
 namespace H2T.C09
+
+/-- **no annotation leaks past the end of its element**: the program of any render node — any kind, any depth, tables
+    included — leaves the annotation stack (and the `pre` depth, white-space stack, strikeout depth and width) of the
+    current sub-renderer exactly as it found them, for every configuration and decorator -/
+theorem no_annotation_leaks (cfg : Cfg) (d : Deco) (n : RNode) (t t' : RS)
+    (h : runOps SubR.widthMinus cfg d t (compile cfg d n) = .ok t') :
+    t'.cur.annStack = t.cur.annStack ∧ t'.cur.preDepth = t.cur.preDepth ∧ t'.cur.wsStack = t.cur.wsStack ∧
+    t'.cur.filterDepth = t.cur.filterDepth := by
+  have := compile_frame SubR.widthMinus cfg d n t t' h
+  simp only [SubR.ff, id, Prod.mk.injEq] at this
+  exact ⟨this.1, this.2.1, this.2.2.1, this.2.2.2.1⟩
+
+/-- the same for a list of siblings: after any prefix of an element's children the stack is the one the children started
+    with — so every child, and every piece of text directly inside the element, sees exactly the element's stack -/
+theorem siblings_see_same_stack (cfg : Cfg) (d : Deco) (kids : List RNode) (t t' : RS)
+    (h : runOps SubR.widthMinus cfg d t (compileList cfg d kids) = .ok t') : t'.cur.annStack = t.cur.annStack := by
+  have := compileList_frame SubR.widthMinus cfg d kids t t' h
+  simp only [SubR.ff, id, Prod.mk.injEq] at this
+  exact this.1
 
 theorem addLine_ann (s : SubR) (l : RLine) : (s.addLine l).annStack = s.annStack := by
   cases l with
